@@ -67,13 +67,10 @@ theorem SendCtl.acct_step (s : SendCtl) (op : SendOp) (h : s.Acct) : (s.step op)
         have hd : s.dead = false := by simpa using hd
         have e := heq hd hp
         split
-        · constructor <;> simp <;> omega
-        · rename_i av hav
-          split
-          · split
-            · constructor <;> simp <;> omega
-            · constructor <;> simp [List.sum_append] <;> omega
+        · split
+          · constructor <;> simp <;> omega
           · constructor <;> simp [List.sum_append] <;> omega
+        · constructor <;> simp [List.sum_append] <;> omega
     | post k n =>
       simp only
       split
@@ -102,9 +99,7 @@ theorem SendCtl.acct_step (s : SendCtl) (op : SendOp) (h : s.Acct) : (s.step op)
           have e := heq hd hp
           split
           · constructor <;> simp <;> omega
-          · split
-            · constructor <;> simp <;> omega
-            · constructor <;> simp <;> omega
+          · constructor <;> simp <;> omega
     | maxdata m =>
       simp only
       split
@@ -161,13 +156,8 @@ theorem SendCtl.bound_step (s : SendCtl) (op : SendOp) (hop : op.NoReject) (h : 
       split
       · exact ⟨h, Nat.le_refl _⟩
       · split
-        · exact ⟨h, Nat.le_refl _⟩
-        · rename_i av hav
-          have : av = s.max - s.sent := by
-            unfold SendCtl.avaliable at hav; split at hav <;> simp_all
-          split
-          · split <;> simp <;> omega
-          · simp; omega
+        · split <;> simp [SendCtl.avaliable] <;> omega
+        · simp [SendCtl.avaliable]; omega
     | post k n =>
       simp only
       split
@@ -181,7 +171,7 @@ theorem SendCtl.bound_step (s : SendCtl) (op : SendOp) (hop : op.NoReject) (h : 
         · exact ⟨h, Nat.le_refl _⟩
         · split
           · exact ⟨h, Nat.le_refl _⟩
-          · split <;> simp <;> omega
+          · simp; omega
     | maxdata m =>
       simp only
       split
@@ -224,9 +214,9 @@ theorem SendCtl.increaseLimit_le (s : SendCtl) (m B : Nat) (h : s.max ≤ B) (hm
   · exact hm
   · exact h
 
-/-- Without a 0-RTT rejection no step can poison the lock. -/
-theorem SendCtl.nopoison_step (s : SendCtl) (op : SendOp) (hop : op.NoReject) (hb : op.Bounded)
-    (ha : s.Acct) (h : s.sent ≤ s.max) (hm : s.max ≤ VARINT_MAX) (hp : s.poisoned = false) :
+/-- No step can poison the lock — a 0-RTT rejection included (`avaliable` saturates). -/
+theorem SendCtl.nopoison_step (s : SendCtl) (op : SendOp) (hb : op.Bounded)
+    (ha : s.Acct) (hm : s.max ≤ VARINT_MAX) (hp : s.poisoned = false) :
     (s.step op).1.poisoned = false ∧ (s.step op).1.max ≤ VARINT_MAX := by
   obtain ⟨hle, _⟩ := ha
   unfold SendCtl.step
@@ -236,9 +226,7 @@ theorem SendCtl.nopoison_step (s : SendCtl) (op : SendOp) (hop : op.NoReject) (h
     simp only
     split
     · exact ⟨hp, hm⟩
-    · have : s.avaliable = some (s.max - s.sent) := by simp [SendCtl.avaliable, h]
-      simp only [this]
-      split
+    · split
       · split
         · omega
         · exact ⟨by simpa using hp, by simpa using hm⟩
@@ -260,9 +248,7 @@ theorem SendCtl.nopoison_step (s : SendCtl) (op : SendOp) (hop : op.NoReject) (h
       · exact ⟨by simpa using hp, by simpa using hm⟩
       · split
         · omega
-        · split
-          · exact ⟨by simpa using hp, by simpa using hm⟩
-          · omega
+        · exact ⟨by simpa using hp, by simpa using hm⟩
   | maxdata m =>
     simp only
     split
@@ -271,30 +257,31 @@ theorem SendCtl.nopoison_step (s : SendCtl) (op : SendOp) (hop : op.NoReject) (h
       exact ⟨by show (s.increaseLimit m).poisoned = false; rw [h5]; exact hp,
              s.increaseLimit_le m _ hm hb⟩
   | revise rej m =>
-    cases rej
-    · simp only
-      split
-      · exact ⟨hp, hm⟩
+    simp only
+    split
+    · exact ⟨hp, hm⟩
+    · cases rej
       · obtain ⟨_, _, _, _, h5, _⟩ := s.increaseLimit_fields m
         simp only [Bool.false_eq_true, ↓reduceIte]
         exact ⟨by show (s.increaseLimit m).poisoned = false; rw [h5]; exact hp,
                s.increaseLimit_le m _ hm hb⟩
-    · exact absurd hop (by simp [SendOp.NoReject])
+      · simp only [↓reduceIte]
+        unfold SendCtl.increaseLimit
+        split
+        · exact ⟨rfl, hb⟩
+        · exact ⟨rfl, Nat.zero_le _⟩
   | error => exact ⟨by simpa using hp, by simpa using hm⟩
 
 theorem SendCtl.nopoison_foldl (ops : List SendOp) (s : SendCtl)
-    (hops : ∀ op ∈ ops, op.NoReject ∧ op.Bounded)
-    (ha : s.Acct) (h : s.sent ≤ s.max) (hm : s.max ≤ VARINT_MAX) (hp : s.poisoned = false) :
+    (hops : ∀ op ∈ ops, op.Bounded)
+    (ha : s.Acct) (hm : s.max ≤ VARINT_MAX) (hp : s.poisoned = false) :
     (ops.foldl (fun s op => (s.step op).1) s).poisoned = false := by
   induction ops generalizing s with
   | nil => simpa using hp
   | cons op ops ih =>
     have ho := hops op (by simp)
-    have h1 := s.nopoison_step op ho.1 ho.2 ha h hm hp
-    exact ih (s.step op).1 (fun o hm => hops o (by simp [hm])) (s.acct_step op ha)
-      (s.bound_step op ho.1 h).1 h1.2 h1.1
-
-/-! ### receiving side -/
+    have h1 := s.nopoison_step op ho ha hm hp
+    exact ih (s.step op).1 (fun o hm => hops o (by simp [hm])) (s.acct_step op ha) h1.2 h1.1
 
 theorem RecvCtl.max_mono (s : RecvCtl) (n : Nat) : s.max ≤ (s.onNewRcvd n).1.max := by
   unfold RecvCtl.onNewRcvd
